@@ -1074,7 +1074,8 @@ def run_fit_impl(case):
                 toks = ["OK", "curve_fit"] + fl(c["p0"])
                 toks += ["-"] if c["sigma"] is None else fl(c["sigma"])
                 toks += ["-"] if c["bounds"] is None else fl(c["bounds"][0]) + fl(c["bounds"][1])
-                ok_args = c["f"] is dep and c["x"] is x and c["y"] is y and not c["extra"] and c["nargs"] == 0
+                ok_args = (c["f"] is dep and (c["x"] is x or _same_content(c["x"], x))
+                           and (c["y"] is y or _same_content(c["y"], y)) and not c["extra"] and c["nargs"] == 0)
             else:
                 toks = ["OK", "slsqp"] + fl(c["p0"])
                 if c["bounds"] is None:
